@@ -1127,4 +1127,75 @@ theorem canonB_byteEff_unsafe (x : Byte) : canonB (byteEff .unsafeEsc x) = if x 
     · have hb : (x == LF) = false := by simpa using hl
       simp [hx, hl, canonB, hb, cF]
 
+
+theorem writeByte_rel (b1 b2 : Buffer) (x1 x2 : Byte) (h : BRel b1 b2)
+    (hr : if b1.mode = .unsafeEsc then (x1 = LF ↔ x2 = LF) else x1 = x2)
+    (k1 : b1.mode = .raw → Obtainable [x1]) (k2 : b1.mode = .raw → Obtainable [x2]) :
+    BRel (b1.writeByte x1) (b2.writeByte x2) := by
+  rw [writeByte_eq b1 x1 h.i1, writeByte_eq b2 x2 h.i2]
+  have ⟨_, m1, hc, _⟩ := inv_startWrite b1 h.i1
+  have hm := h.mode
+  refine append_rel _ _ _ _ (startWrite_rel b1 b2 h) hc ?_ ?_ ?_
+  · rw [m1]
+    unfold PendRel
+    split
+    · rename_i hu
+      rw [if_pos hu] at hr
+      rw [← hm, hu, canonB_byteEff_unsafe, canonB_byteEff_unsafe]
+      by_cases h1 : x1 = LF
+      · simp [h1, hr.1 h1]
+      · have : ¬ x2 = LF := fun h2 => h1 (hr.2 h2)
+        simp [h1, this]
+    · rename_i hu
+      rw [if_neg hu] at hr
+      rw [← hm, hr]
+      split <;> rfl
+  · intro hh
+    rw [m1] at hh
+    have : byteEff b1.mode x1 = [x1] := by simp [byteEff, hh]
+    rw [this]; exact k1 hh
+  · intro hh
+    rw [m1] at hh
+    have : byteEff b2.mode x2 = [x2] := by simp [byteEff, ← hm, hh]
+    rw [this]; exact k2 hh
+
+theorem writeRune_rel (b1 b2 : Buffer) (r1 r2 : Int) (h : BRel b1 b2)
+    (hr : if b1.mode = .unsafeEsc then (r1 = 10 ↔ r2 = 10) else r1 = r2)
+    (k1 : b1.mode = .raw → Obtainable (encodeRune r1)) (k2 : b1.mode = .raw → Obtainable (encodeRune r2)) :
+    BRel (b1.writeRune r1) (b2.writeRune r2) := by
+  show BRel (b1.write (encodeRune r1)) (b2.write (encodeRune r2))
+  refine write_rel _ _ _ _ h ?_ k1 k2
+  unfold PendRel
+  split
+  · rename_i hu
+    rw [if_pos hu] at hr
+    rw [canonB_encodeRune, canonB_encodeRune]
+    by_cases h1 : r1 = 10
+    · simp [h1, hr.1 h1]
+    · have : ¬ r2 = 10 := fun h2 => h1 (hr.2 h2)
+      simp [h1, this]
+  · rename_i hu
+    rw [if_neg hu] at hr
+    rw [hr]
+    split <;> rfl
+
+/-- The same payload written by both runs in an escaping mode. -/
+theorem pendRel_refl {m : Mode} (hm : m ≠ .raw) (s : List Byte) : PendRel m s s := by
+  unfold PendRel
+  split
+  · rfl
+  · first | rfl | (rw [if_neg hm])
+
+theorem write_rel_same (b1 b2 : Buffer) (s : List Byte) (h : BRel b1 b2) (hm : b1.mode ≠ .raw) :
+    BRel (b1.write s) (b2.write s) :=
+  write_rel _ _ _ _ h (pendRel_refl hm s) (fun hh => absurd hh hm) (fun hh => absurd hh hm)
+
+theorem writeByte_rel_same (b1 b2 : Buffer) (x : Byte) (h : BRel b1 b2) (hm : b1.mode ≠ .raw) :
+    BRel (b1.writeByte x) (b2.writeByte x) :=
+  writeByte_rel _ _ _ _ h (by split <;> simp) (fun hh => absurd hh hm) (fun hh => absurd hh hm)
+
+theorem writeRune_rel_same (b1 b2 : Buffer) (r : Int) (h : BRel b1 b2) (hm : b1.mode ≠ .raw) :
+    BRel (b1.writeRune r) (b2.writeRune r) :=
+  writeRune_rel _ _ _ _ h (by split <;> simp) (fun hh => absurd hh hm) (fun hh => absurd hh hm)
+
 end Redact
